@@ -281,7 +281,7 @@ fn resize_to_grow_case() {
     core::mem::forget(al);
 }
 
-// @harness props=C14 tier=quick timeout=1800 mem=16 replay=native
+// @harness props=C14 tier=thorough timeout=3600 mem=24 replay=native attempt=1
 // @desc Allocators::resize_to when the file shrinks from three entirely free regions to one, with ANY tracker state: every dropped region is marked full at every order of the region tracker (find_free can never return a region that no longer exists), the surviving region keeps its allocator state and tracker bits, and the allocator list matches the new layout
 // @functions Allocators::resize_to, RegionTracker::mark_full, BuddyAllocator::len, DatabaseLayout::{num_regions,trailing_region_layout,full_region_layout}
 // @bound three entirely free regions (16, 1 and 1 pages) -> 1 region; all tracker bits (5 orders x 3 regions, real 4-level shape) arbitrary
